@@ -63,3 +63,47 @@ package fieldmask
 //@ func (self *FieldMask) All() bool
 //@   ensures self == nil ==> result
 //@   ensures self != nil ==> result == ite(self.typ == FtStruct || self.typ == FtList || self.typ == FtIntMap || self.typ == FtStrMap, self.isAll, true)
+
+// ---- path tokenizer (path.go): never panics on any string ----
+
+//@ pure func wfIt(p *pathIterator) bool { return 0 <= p.pos && p.pos <= len(p.src) }
+
+//@ func newPathValueStr(val string) pathValue
+//@   trusted
+//@   pure
+//@   ensures result.iv == len(val) && result.Str() == val
+
+//@ func (v pathValue) Str() string
+//@   trusted
+//@   pure
+
+//@ func (v pathValue) Int32() int32
+//@   ensures result == v.iv
+
+//@ func newPathToken(typ pathType, val string, s, e int) pathToken
+//@   ensures result.typ == typ
+
+//@ func (p *pathIterator) char() byte
+//@   requires p != nil && 0 <= p.pos && p.pos < len(p.src)
+//@   ensures p.pos == old(p.pos) + 1 && result == old(p.src[p.pos]) && p.src == old(p.src)
+//@   modifies p.pos
+
+//@ func (p *pathIterator) lit() (string, bool)
+//@   requires p != nil && wfIt(p)
+//@   ensures wfIt(p) && p.src == old(p.src) && p.pos >= old(p.pos)
+//@   modifies p.pos
+//@   loop 1 invariant old(p.pos) <= i && i <= len(p.src) && p.pos == old(p.pos) && p.src == old(p.src)
+
+//@ func (p *pathIterator) str() (string, error)
+//@   requires p != nil && wfIt(p)
+//@   ensures wfIt(p) && p.src == old(p.src) && p.pos >= old(p.pos)
+//@   modifies p.pos
+//@   loop 1 invariant old(p.pos) <= i && i <= len(p.src) && p.pos == old(p.pos) && p.src == old(p.src)
+
+//@ func (p *pathIterator) Next() pathToken
+//@   requires p != nil && wfIt(p)
+//@   ensures wfIt(p) && p.src == old(p.src) && p.pos >= old(p.pos)
+//@   modifies p.pos
+
+//@ func (p *pathIterator) LeftPath() string
+//@   requires p != nil && wfIt(p)
